@@ -629,3 +629,55 @@ func TestC17SlowVacuum(t *testing.T) {
 	}
 	RecordCase("C17", "slow cleanup: interval 1.5s, rows with a TTL of 2.9s survive the pass before their deadline; keyed: "+keyedHistory, true, labels...)
 }
+
+// TestC17ManyRows: a cleanup interval (1 ms) far shorter than one pass over the collection takes
+// (300 000 rows that carry a far deadline, 19 blocks): the rows at the highest offsets must still be
+// reached. The last 3 rows get a 50 ms TTL; they have to be gone within the liveness bound of
+// TestC17 (here 20 s; a pass takes a few milliseconds), the others have to stay.
+func TestC17ManyRows(t *testing.T) {
+	c := column.NewCollection(column.Options{Vacuum: time.Millisecond})
+	defer c.Close()
+	c.CreateColumn("id", column.ForUint64())
+	const n = 300000
+	c.Query(func(txn *column.Txn) error {
+		for i := 0; i < n; i++ {
+			txn.Insert(func(r column.Row) error { r.SetUint64("id", uint64(i)); r.SetTTL(time.Hour); return nil })
+		}
+		return nil
+	})
+	var short []uint32
+	for i := 0; i < 3; i++ {
+		off, _ := c.Insert(func(r column.Row) error { r.SetUint64("id", uint64(n+i)); r.SetTTL(50 * time.Millisecond); return nil })
+		short = append(short, off)
+	}
+	deadline := time.Now().Add(50 * time.Millisecond)
+	for _, off := range short {
+		if off < n {
+			t.Fatalf("harness: the short-lived row got offset %d, below the %d long-lived ones", off, n)
+		}
+	}
+	gone := time.Duration(0)
+	for {
+		// presence by id through a full Range (QueryAt answers nil for an offset that holds no row, so it
+		// is no presence test - see DESIGN.md §14, false alarm 15)
+		present := c17Present(c)
+		left := 0
+		for i := range short {
+			if present[uint64(n+i)] {
+				left++
+			}
+		}
+		if left == 0 {
+			gone = time.Since(deadline)
+			break
+		}
+		if time.Since(deadline) > 20*time.Second {
+			t.Fatalf("C17 violated: %d of the 3 rows at offsets %v (behind %d rows with a far deadline) are still present %s after their deadline; cleanup interval 1ms", left, short, n, time.Since(deadline).Round(time.Millisecond))
+		}
+		time.Sleep(5 * time.Millisecond)
+	}
+	if got := c.Count(); got != n {
+		t.Fatalf("C17 violated: Count()=%d after the 3 short-lived rows expired, %d rows carry a deadline one hour away", got, n)
+	}
+	RecordCase("C17", fmt.Sprintf("cleanup interval 1ms over %d rows in 19 blocks: the 3 rows at the highest offsets were gone %s after their deadline", n, gone.Round(time.Millisecond)), true, "pass-longer-than-interval")
+}
